@@ -635,6 +635,252 @@ def propagate_oms(built, o, p0, pref_ch):
     return rec
 
 
+# ------------------------------------------------------------------ multiband OMS (two-band lines of Multiband_amplifier nodes)
+def gen_mb_case(rng):
+    """c10's two-band line, plus - on some nodes - an imposed multiband type_variety with or without per band amplifiers
+    carrying operator settings"""
+    c = c10.gen_case_c(rng)
+    c['kind'] = 'M'
+    groups = [e for e in c['edfa'] if e['type_def'] == 'multi_band' and len(e['amplifiers']) == 2]
+    byname = {e['type_variety']: e for e in c['edfa']}
+    for el in c['topo']['elements']:
+        if el['type'] != 'Multiband_amplifier' or not groups or rng.random() > 0.4:
+            continue
+        g = rng.choice(groups)
+        if {byname[t]['f_min'] for t in g['amplifiers']} != {c10.CBAND[0], c10.LBAND[0]}:
+            continue
+        el.pop('variety_list', None)
+        el['type_variety'] = g['type_variety']
+        if rng.random() < 0.65:
+            el['amplifiers'] = [{'type_variety': t, 'operational': gen_operational(rng, c['span'], None)} for t in g['amplifiers']]
+    return c
+
+
+def drive_mb(case):
+    """design a multiband line; returns built with built['moms'] = [{bands, nodes: [...], start, end, p0 ...}]"""
+    import gnpy.core.network as nw
+    from gnpy.core import elements as E
+    from gnpy.tools.worker_utils import designed_network
+    built = build_case(case)
+    net, eq = built['network'], built['equipment']
+    chains = [(st, ch, en) for st, ch, en in oms_chains(net) if any(isinstance(n, E.Multiband_amplifier) for n in ch)]
+    pre = {}
+    for st, ch, en in chains:
+        for n in ch:
+            if isinstance(n, E.Fiber):
+                pre[n.uid] = snapshot_elem(n)
+    nfcalls = {}
+    orig_s = nw.select_edfa
+
+    def wrap_s(raman_allowed, gain_target, power_target, edfa_eqpt, uid, target_extended_gain, verbose=True):
+        nfcalls.setdefault(uid, []).append({n: c10.nf_of(gain_target, a) for n, a in edfa_eqpt.items()})
+        return orig_s(raman_allowed, gain_target, power_target, edfa_eqpt, uid, target_extended_gain, verbose)
+    nw.select_edfa = wrap_s
+    built['status'] = 'ok'
+    try:
+        try:
+            designed_network(eq, net, no_insert_edfas=True)
+        except Exception as e:
+            built['status'] = f'E:{type(e).__name__}'
+            built['exc'] = str(e)[:300]
+    finally:
+        nw.select_edfa = orig_s
+    lib = eq['Edfa']
+    si = case['si']
+    moms = []
+    for st, ch, en in chains:
+        bands = list(getattr(st, 'per_degree_design_bands', {}).get(ch[0].uid) or [])
+        o = {'start': st, 'end': en, 'nodes': ch, 'snap': [], 'obs': [],
+             'bands': [(float(b_['f_min']), float(b_['f_max'])) for b_ in bands]}
+        for n in ch:
+            if isinstance(n, E.Multiband_amplifier):
+                ej = built['elem_json'].get(n.uid, {})
+                imposed = ej.get('type_variety', '') if ej.get('type_variety') not in (None, 'default') else ''
+                jamps = {a['type_variety']: a for a in ej.get('amplifiers', [])}
+                per_band, obs = [], []
+                order = list(n.amplifiers.items())
+                for k, (lo, hi) in enumerate(o['bands']):
+                    # the band's amplifier object, if the design got that far
+                    from gnpy.core.parameters import find_band_name, FrequencyBand
+                    amp = n.amplifiers.get(find_band_name(FrequencyBand(f_min=lo, f_max=hi)))
+                    jv = next((t for t in jamps if float(lib[t].f_min) <= lo and float(lib[t].f_max) >= hi), '')
+                    op = jamps[jv].get('operational', {}) if jv else {}
+                    per_band.append({'variety': jv, 'gain': op.get('gain_target'), 'delta_p': op.get('delta_p'),
+                                     'out_voa': op.get('out_voa'), 'in_voa': op.get('in_voa', 0)})
+                    if amp is not None and amp.effective_gain is not None and amp._delta_p is not None:
+                        obs.append({'variety': amp.params.type_variety, 'gain': float(amp.effective_gain),
+                                    'delta_p': amp.delta_p, '_delta_p': float(amp._delta_p),
+                                    'out_voa': amp.out_voa, 'in_voa': amp.in_voa})
+                    else:
+                        obs.append(None)
+                o['snap'].append({'t': 'mb', 'uid': n.uid, 'variety': imposed,
+                                  'vlist': list(n.variety_list) if isinstance(n.variety_list, list) else [],
+                                  'amps': per_band, 'nf': nfcalls.get(n.uid, [])})
+                o['obs'].append({'uid': n.uid, 'bands': obs, 'type': n.type_variety if built['status'] == 'ok' else None})
+            elif isinstance(n, E.Fiber) and not isinstance(n, E.RamanFiber):
+                o['snap'].append(pre[n.uid])
+                o['obs'].append({'uid': n.uid, 'att_in': n.params.att_in, 'con_in': n.params.con_in, 'con_out': n.params.con_out,
+                                 'dsl': getattr(n, 'design_span_loss', None), 'loss': float(n.loss)})
+            elif isinstance(n, E.Fused):
+                o['snap'].append({'t': 'fused', 'uid': n.uid, 'loss': float(n.loss)})
+                o['obs'].append({'uid': n.uid, 'loss': float(n.loss)})
+            else:
+                o['snap'].append({'t': 'unsupported', 'uid': n.uid})
+                o['obs'].append(None)
+        moms.append(o)
+    built['moms'] = moms
+    return built
+
+
+def band_pref_total(case, band, pref_ch):
+    si = case['si']
+    if si.get('use_si_channel_count_for_design', True):
+        nch = int((si['f_max'] - si['f_min']) // si['spacing'])
+    else:
+        nch = int((band[1] - band[0]) // si['spacing'])
+    return pref_ch + db(nch)
+
+
+def mb_term(built, pref_ch):
+    case = built['case']
+    groups = listlit([f"grp {strlit(g['name'])} {b(g['allowed'])} {slist(g['members'])}" for g in c10.group_views(case)])
+    omss = []
+    for o in built['moms']:
+        from gnpy.core import elements as E
+        st, en = o['start'], o['end']
+        s_ = (f"(sroadm {slist(eff_restr(built, st, 'booster_variety_list'))})" if isinstance(st, E.Roadm) else 'StartTrx')
+        e_ = (f"(eroadm {slist(eff_restr(built, en, 'preamp_variety_list'))})" if isinstance(en, E.Roadm) else 'EndTrx')
+        o['p0'] = start_power(built, o, pref_ch)
+        o['pref_totals'] = [band_pref_total(case, bd, pref_ch) for bd in o['bands']]
+        bis = listlit([f"bi {qlit(lo)} {qlit(hi)} {qlit(pt)}" for (lo, hi), pt in zip(o['bands'], o['pref_totals'])])
+        els = []
+        for sn in o['snap']:
+            if sn['t'] == 'fiber':
+                els.append(f"mrf {qlit(sn['lin'])} {oq(sn['con_in'])} {oq(sn['con_out'])} {qlit(sn['att_in'])} "
+                           f"{listlit([qlit(x) for x in sn['loss_coef']])}")
+            elif sn['t'] == 'fused':
+                els.append(f"mrfu {qlit(sn['loss'])}")
+            else:
+                amps = []
+                for k, a in enumerate(sn['amps']):
+                    nf = sn['nf'][k] if k < len(sn['nf']) else {}
+                    nfs = listlit([f'nfv {strlit(n)} {qlit(v)}' for n, v in nf.items()])
+                    amps.append(f"ban {strlit(a['variety'])} {oq(a['gain'])} {oq(a['delta_p'])} {oq(a['out_voa'])} {oq(a['in_voa'])} {nfs}")
+                els.append(f"mra {strlit(sn['variety'])} {slist(sn['vlist'])} {listlit(amps)}")
+        omss.append(f"moms {bis} {qlit(o['p0'])} {s_} {e_} {listlit(els)}")
+    return (f"run_mnet {cfg_lit(case['span'])} {lib_lit(built['equipment'])} {groups} {qlit(pref_ch)} {listlit(omss)}")
+
+
+def parse_moms(txt):
+    fib_s, rest = txt.split('#', 1)
+    fibs = []
+    for f in [x for x in fib_s.split(';') if x]:
+        att, cin, cout, dsl = f.split('|')
+        fibs.append({'att_in': pq(att), 'con_in': pq(cin), 'con_out': pq(cout), 'dsl': pq(dsl)})
+    if rest.startswith('E:'):
+        return {'fibs': fibs, 'err': rest[2:].split(':')[0], 'nodes': [], 'walks': []}
+    node_s, walk_s = rest.split('#')
+    nodes = []
+    for nd in [x for x in node_s.split('&') if x]:
+        bands = []
+        for a in nd.split('^'):
+            v, g, dp, _dp, ov, iv, nl, crit = a.split('|')
+            bands.append({'variety': v, 'gain': pq(g), 'delta_p': pq(dp), '_delta_p': pq(_dp), 'out_voa': pq(ov),
+                          'in_voa': pq(iv), 'node_loss': pq(nl), 'crit': pq(crit)})
+        nodes.append(bands)
+    return {'fibs': fibs, 'err': None, 'nodes': nodes, 'walks': [[pq(x) for x in w.split(';') if x] for w in walk_s.split('^')]}
+
+
+def judge_mb(ctx, built, line, pref_ch):
+    """per band correspondence and per band static oracle for every multiband OMS of the network"""
+    from gnpy.core import elements as E
+    case = strip(built['case'])
+    span = built['case']['span']
+    eq = built['equipment']['Edfa']
+    models = [parse_moms(x) for x in line.split('~')] if built['moms'] else []
+    for o, m in zip(built['moms'], models):
+        desc = f"multiband OMS {o['start'].uid} -> {o['end'].uid}"
+        ctx.case({'net': built['case']['seed'], 'oms': o['nodes'][0].uid, 'kind': 'M'}, True)
+        ctx.count('mb_oms')
+        if built['status'] != 'ok':
+            typ = built['status'][2:]
+            ctx.count('mb_design_error_' + typ)
+            # (ties in the nodes designed before the error may move it: only the error type is compared)
+            if m['err'] != typ:
+                # the error may also have been raised in another OMS of the network
+                if not any(mm['err'] == typ for mm in models):
+                    ctx.corr_break('corr:PowerDesign.design_mb', f"{desc}: implementation raised {built['status']} "
+                                   f"({built.get('exc')}), model {m['err']}", case, impl=built['status'], model=m['err'])
+            continue
+        if m['err']:
+            ctx.corr_break('corr:PowerDesign.design_mb', f"{desc}: model raises {m['err']}, implementation designed it",
+                           case, model=m['err'])
+            continue
+        # fibres
+        fsn = [(s_, ob) for s_, ob in zip(o['snap'], o['obs']) if s_['t'] == 'fiber']
+        tie = False
+        for (s_, ob), fm in zip(fsn, m['fibs']):
+            if fm['dsl'] is not None:
+                bumped = fm['att_in'] - s_['att_in']
+                margin = bumped if bumped > 0 else fm['dsl'] - span['padding']
+                if abs(margin) < TOL:
+                    tie = True
+        if tie:
+            ctx.count('mb_oms_not_judged_padding_tie')
+            continue
+        for (s_, ob), fm in zip(fsn, m['fibs']):
+            for k_ in ('att_in', 'con_in', 'con_out', 'dsl'):
+                if not close(ob[k_], fm[k_]):
+                    ctx.corr_break('corr:PowerDesign.prep', f"{desc}: fibre {ob['uid']} {k_}", case, impl=ob[k_], model=fm[k_])
+        # nodes, band by band
+        nsn = [(s_, ob) for s_, ob in zip(o['snap'], o['obs']) if s_['t'] == 'mb']
+        stop = False
+        for (s_, ob), mb in zip(nsn, m['nodes']):
+            if stop:
+                break
+            for k, (aobs, am) in enumerate(zip(ob['bands'], mb)):
+                if am['crit'] < TOL:
+                    ctx.count('mb_amp_not_judged_tie')
+                    stop = True
+                    break
+                ctx.count('mb_band_amps_compared')
+                if aobs is None:
+                    ctx.corr_break('corr:PowerDesign.mb_node', f"{desc}: {ob['uid']} band {k} not designed", case)
+                    stop = True
+                    break
+                if aobs['variety'] != am['variety']:
+                    ctx.corr_break('corr:PowerDesign.mb_node', f"{desc}: {ob['uid']} band {k} type_variety", case,
+                                   impl=aobs['variety'], model=am['variety'])
+                    stop = True
+                    break
+                for k_ in ('gain', 'delta_p', '_delta_p', 'out_voa', 'in_voa'):
+                    if not close(aobs[k_], am[k_]):
+                        ctx.corr_break('corr:PowerDesign.mb_node', f"{desc}: {ob['uid']} band {k} {k_}", case,
+                                       impl=aobs[k_], model=am[k_])
+        if len(nsn) != len(m['nodes']):
+            ctx.corr_break('corr:PowerDesign.design_mb', f"{desc}: {len(nsn)} nodes, model {len(m['nodes'])}", case)
+        # ---- oracle: per band budget and p_max on the implementation's designed values
+        for k, (band, pref_total) in enumerate(zip(o['bands'], o['pref_totals'])):
+            p = o['p0']
+            for s_, ob in zip(o['snap'], o['obs']):
+                if s_['t'] in ('fiber', 'fused'):
+                    p -= ob['loss']
+                elif s_['t'] == 'mb':
+                    a = ob['bands'][k]
+                    if a is None:
+                        break
+                    p = p - a['in_voa'] + a['gain']
+                    ctx.count('mb_band_amps_budget_checked')
+                    if abs(p - (pref_ch + a['_delta_p'])) > 1e-9:
+                        ctx.violation('mb_budget_not_closed', f"{desc} band {k}: reference channel leaves {ob['uid']} at {p} dBm, "
+                                      f"reference power + offset = {pref_ch + a['_delta_p']}", case)
+                        p = pref_ch + a['_delta_p']
+                    if span['power_mode'] and pref_total + a['_delta_p'] > float(eq[a['variety']].p_max) + 1e-9:
+                        ctx.violation('mb_design_power_above_pmax', f"{desc} band {k}: {ob['uid']} total design power "
+                                      f"{pref_total + a['_delta_p']} > p_max {eq[a['variety']].p_max}", case)
+                    p -= a['out_voa']
+
+
 # ------------------------------------------------------------------ parsing
 def pq(s):
     if s == 'N':
@@ -700,10 +946,27 @@ def run(ctx):
     if ctx.replay:
         cases = [json.load(open(ctx.replay))['case']]
     else:
-        cases += [gen_case(rng) for _ in range(ctx.scale(90, 2000))]
+        cases += [gen_case(rng) for _ in range(ctx.scale(90, 1600))]
+        cases += [gen_mb_case(rng) for _ in range(ctx.scale(40, 500))]
     terms, meta = [], []
+    mterms, mmeta = [], []
     for c in cases:
         case = strip(c)
+        if c.get('kind') == 'M':
+            try:
+                built = drive_mb(c)
+            except Exception as e:
+                ctx.count('mb_not_built:' + type(e).__name__)
+                continue
+            ctx.count('mb_networks')
+            ctx.count('mb_design_' + built['status'])
+            pref_ch, _, _ = ref_values(c)
+            if any(s_['t'] == 'unsupported' for o in built['moms'] for s_ in o['snap']) or not built['moms']:
+                ctx.count('mb_unsupported')
+                continue
+            mterms.append(mb_term(built, pref_ch))
+            mmeta.append((built, pref_ch))
+            continue
         try:
             built = build_case(c)
         except Exception as e:
@@ -728,6 +991,9 @@ def run(ctx):
         terms.append(net_term(built, omses, p0s, pref_ch, pref_total))
         meta.append((c, built, omses, p0s, pref_ch, pref_total))
     lines = common.coq_eval('C09', 'Prelude Model.Select Model.PowerDesign Run.C09', terms, per_file=5)
+    mlines = common.coq_eval('C09', 'Prelude Model.Select Model.PowerDesign Run.C09', mterms, per_file=4, tag='mcases')
+    for (built, pref_ch), line in zip(mmeta, mlines):
+        judge_mb(ctx, built, line, pref_ch)
     for (c, built, omses, p0s, pref_ch, pref_total), line in zip(meta, lines):
         case = strip(c)
         models = [parse_oms(x) for x in line.split('~')] if omses else []
@@ -828,8 +1094,9 @@ def run(ctx):
         'pref_ch_db, pref_total_db = pref_ch_db + 10 log10(nb_channels), PSD/PSW ROADM targets and loss_coef x length are '
         'inputs of the model computed by the harness with math.log10 / plain products, independently of gnpy.core.utils',
         'noise figures of the candidates of each auto-designed node are inputs recorded with gnpy.core.network.edfa_nf',
-        'not modelled: RamanFiber spans (Raman gain estimate), Multiband_amplifier nodes, SRS tilt (Raman flag off); '
-        'OMS containing such elements are counted (oms_unsupported) and not generated',
+        'Raman gain estimates of RamanFibers (reference power / designed power) are inputs recorded by wrapping '
+        'estimate_raman_gain; OMS with a RamanFiber are not propagated; SRS tilt is 0 (Raman flag off); multiband lines '
+        'are generated without RamanFiber; the design band(s) of each degree are inputs read from the implementation',
         'the propagation oracle uses flat amplifiers (no advanced_model ripple profile) and frequency-flat fibre loss',
     ]
     return common.finish(ctx, MATCHERS)
